@@ -4,6 +4,7 @@ use crate::runner::PropertyDef;
 pub mod c01;
 pub mod c02;
 pub mod c03;
+pub mod c05;
 pub mod c07;
 pub mod c08;
 pub mod c09;
@@ -14,6 +15,7 @@ pub fn get(id: &str) -> Option<PropertyDef> {
         "C01" => Some(c01::def()),
         "C02" => Some(c02::def()),
         "C03" => Some(c03::def()),
+        "C05" => Some(c05::def()),
         "C07" => Some(c07::def()),
         "C08" => Some(c08::def()),
         "C09" => Some(c09::def()),
